@@ -32,9 +32,12 @@ def sign_tables(rep, F, rule='R-TABLE'):
             continue
         scale_t = T('field', T('param', 1), 'scale')
         for sign in SIGNS:
-            for sc in (0, 7, -3):
+            # the last sample is the most negative scale at which a one-digit value still fits the target type
+            # (10^18 < i64::MAX, 10^19 < u64::MAX, 10^38 < i128::MAX < u128::MAX): a shortcut to None must not reach it
+            fit = {'i64': 18, 'u64': 19, 'i128': 38, 'u128': 38}[ity]
+            for sc in (0, 7, -3, -fit):
                 n += 1
-                key = '%s:sign=%s,scale%s0' % (fn.key, sign, '==' if sc == 0 else '>' if sc > 0 else '<')
+                key = '%s:sign=%s,scale%s' % (fn.key, sign, ('==0' if sc == 0 else '>0' if sc > 0 else '<0') if sc != -fit else '=-%d' % fit)
                 ev = TB.Evaluator(F.raw['enums'], {sign_term: ('variant', 'Sign', sign), scale_t: sc})
                 try:
                     atoms, out = ev.select(paths)
